@@ -537,8 +537,32 @@ func condAlts(v ssa.Value, want bool, depth int) [][]Fact {
 				nonConst = append(nonConst, i)
 			}
 		}
-		if !(allSame && !first && len(nonConst) == 1) {
-			return [][]Fact{nil}
+		shortCircuit := allSame && !first && len(nonConst) == 1
+		if shortCircuit {
+			// the constant edges of a short-circuit value come from the tests of its operands
+			for i, e := range phi.Edges {
+				if _, isConst := ConstBool(e); !isConst {
+					continue
+				}
+				pr := phi.Block().Preds[i]
+				if len(pr.Instrs) == 0 {
+					shortCircuit = false
+					continue
+				}
+				if _, isIf := pr.Instrs[len(pr.Instrs)-1].(*ssa.If); !isIf {
+					shortCircuit = false
+				}
+			}
+		}
+		if !shortCircuit {
+			// not the value of a short-circuit operator (a flag variable): the plain
+			// fact about the variable itself
+			cmp, neg := CondCmp(v)
+			holds := want
+			if neg {
+				holds = !holds
+			}
+			return [][]Fact{{{cmp, holds}}}
 		}
 		blk := phi.Block()
 		// what taking the short-circuit edge i / not taking it means
@@ -778,26 +802,26 @@ func CutEstablishing(m EdgeMatcher) EdgeCut {
 	plain := func(b *ssa.BasicBlock, i int) bool { return AltsEstablish(EdgeAlts(b, i), m) }
 	memo := map[*ssa.Phi]int{} // 1 in progress / ok, 2 no
 	var reach *Reach
-	var sentinelOK func(p *ssa.Phi) bool
-	sentinelOK = func(p *ssa.Phi) bool {
+	// liveOK: every value other than the sentinel that variable p (a phi and the
+	// phis it merges) can take is given on an edge where m holds
+	var liveOK func(p *ssa.Phi, sent *bool) bool
+	liveOK = func(p *ssa.Phi, sent *bool) bool {
 		if st, ok := memo[p]; ok {
 			return st == 1
 		}
 		memo[p] = 1
-		nSent, nLive := 0, 0
 		for k, e := range p.Edges {
 			if isSentinelConst(e) {
-				nSent++
+				*sent = true
 				continue
 			}
-			if q, ok := e.(*ssa.Phi); ok && hasSentinelEdge(q) {
-				if !sentinelOK(q) {
+			if q, ok := e.(*ssa.Phi); ok && (q == p || mergesSentinel(q)) {
+				if !liveOK(q, sent) {
 					memo[p] = 2
 					return false
 				}
 				continue
 			}
-			nLive++
 			pred := p.Block().Preds[k]
 			idx := -1
 			for si, sc := range pred.Succs {
@@ -817,14 +841,22 @@ func CutEstablishing(m EdgeMatcher) EdgeCut {
 			memo[p] = 2
 			return false
 		}
-		if nSent == 0 || nLive == 0 {
-			// not a sentinel variable (or one that never leaves it): say nothing
-			if nSent == 0 {
-				memo[p] = 2
-				return false
+		return true
+	}
+	sentinelOK := func(p *ssa.Phi) bool {
+		if st, ok := memo[p]; ok && st == 2 {
+			return false
+		}
+		if !hasSentinelEdge(p) && !mergesSentinel(p) {
+			return false
+		}
+		sent := false
+		for k := range memo {
+			if memo[k] == 1 {
+				delete(memo, k)
 			}
 		}
-		return true
+		return liveOK(p, &sent) && sent
 	}
 	notSentinel := func(f Fact) bool {
 		for _, side := range []ssa.Value{f.Cmp.X, f.Cmp.Y} {
@@ -869,6 +901,28 @@ func CutEstablishing(m EdgeMatcher) EdgeCut {
 		}
 		return true
 	}
+}
+
+// mergesSentinel: one of the phis p merges (transitively) has a sentinel edge.
+func mergesSentinel(p *ssa.Phi) bool {
+	seen := map[*ssa.Phi]bool{}
+	var walk func(q *ssa.Phi) bool
+	walk = func(q *ssa.Phi) bool {
+		if seen[q] {
+			return false
+		}
+		seen[q] = true
+		if hasSentinelEdge(q) {
+			return true
+		}
+		for _, e := range q.Edges {
+			if r, ok := e.(*ssa.Phi); ok && walk(r) {
+				return true
+			}
+		}
+		return false
+	}
+	return walk(p)
 }
 
 func hasSentinelEdge(p *ssa.Phi) bool {
@@ -1338,4 +1392,301 @@ func AltsEstablish(alts [][]Fact, m EdgeMatcher) bool {
 		}
 	}
 	return true
+}
+
+// ---------------------------------------------------------------- search variables
+
+// Search variables: a variable that starts at a sentinel (a negative index,
+// false) and is given a live value on a path is not, later on that path, found
+// at its sentinel again (`found = i; break` … `if found < 0 { … }`: the
+// then-branch is not reached from the assignment).  The walks below track one
+// bit per variable: state = (block, set of variables known to be live).
+
+type searchState struct {
+	b    *ssa.BasicBlock
+	mask uint32
+}
+
+type searchCtx struct {
+	bit    map[*ssa.Phi]uint
+	parent map[*ssa.Phi]*ssa.Phi
+}
+
+func (sc *searchCtx) find(p *ssa.Phi) *ssa.Phi {
+	if sc.parent[p] == nil || sc.parent[p] == p {
+		sc.parent[p] = p
+		return p
+	}
+	r := sc.find(sc.parent[p])
+	sc.parent[p] = r
+	return r
+}
+
+func (sc *searchCtx) groupBit(p *ssa.Phi) (uint, bool) {
+	b, ok := sc.bit[sc.find(p)]
+	return b, ok
+}
+
+func newSearchCtx(fn *ssa.Function) *searchCtx {
+	sc := &searchCtx{bit: map[*ssa.Phi]uint{}, parent: map[*ssa.Phi]*ssa.Phi{}}
+	var phis []*ssa.Phi
+	for _, b := range fn.Blocks {
+		for _, in := range b.Instrs {
+			p, ok := in.(*ssa.Phi)
+			if !ok {
+				break
+			}
+			phis = append(phis, p)
+			sc.find(p)
+		}
+	}
+	// groups of phis that are copies of one source variable
+	for _, p := range phis {
+		for _, e := range p.Edges {
+			// a phi that holds the same variable: not any phi (a loop counter
+			// assigned to the variable is a value like another)
+			if q, ok := e.(*ssa.Phi); ok && (q == p || mergesSentinel(q)) {
+				sc.parent[sc.find(p)] = sc.find(q)
+			}
+		}
+	}
+	for _, p := range phis {
+		if hasSentinelEdge(p) {
+			g := sc.find(p)
+			if _, ok := sc.bit[g]; !ok && len(sc.bit) < 16 {
+				sc.bit[g] = uint(len(sc.bit))
+			}
+		}
+	}
+	return sc
+}
+
+// atSentinel: the fact says that a search variable is at its sentinel.
+func (sc *searchCtx) atSentinel(f Fact) (uint, bool) {
+	for _, side := range []ssa.Value{f.Cmp.X, f.Cmp.Y} {
+		if side == nil {
+			continue
+		}
+		p, ok := StripConv(side).(*ssa.Phi)
+		if !ok {
+			continue
+		}
+		gb, ok := sc.groupBit(p)
+		if !ok {
+			continue
+		}
+		isP := func(v ssa.Value) bool { return v != nil && StripConv(v) == ssa.Value(p) }
+		for _, mm := range []EdgeMatcher{LowerBound0(isP), IsTrue(isP), Ne(isP, isSentinelConst)} {
+			t, fl := mm(f.Cmp)
+			// the complement holds: the variable has not left its sentinel
+			if (f.Holds && fl) || (!f.Holds && t) {
+				return gb, true
+			}
+		}
+	}
+	return 0, false
+}
+
+// transfer: the state after entering block to from block pr.
+func (sc *searchCtx) transfer(mask uint32, pr, to *ssa.BasicBlock) uint32 {
+	for k, p := range to.Preds {
+		if p != pr {
+			continue
+		}
+		for _, in := range to.Instrs {
+			ph, ok := in.(*ssa.Phi)
+			if !ok {
+				break
+			}
+			gb, ok := sc.groupBit(ph)
+			if !ok {
+				continue
+			}
+			e := ph.Edges[k]
+			switch {
+			case isSentinelConst(e):
+				mask &^= 1 << gb
+			default:
+				if q, isPhi := e.(*ssa.Phi); !isPhi || sc.find(q) != sc.find(ph) {
+					mask |= 1 << gb
+				}
+			}
+		}
+		break
+	}
+	return mask
+}
+
+// feasible: the edge st.b -> st.b.Succs[i] does not put a live variable at its sentinel.
+func (sc *searchCtx) feasible(st searchState, i int) bool {
+	alts := EdgeAlts(st.b, i)
+	if len(alts) == 0 {
+		return true
+	}
+	for _, alt := range alts {
+		hit := false
+		for _, f := range alt {
+			if gb, ok := sc.atSentinel(f); ok && st.mask&(1<<gb) != 0 {
+				hit = true
+			}
+		}
+		if !hit {
+			return true
+		}
+	}
+	return false
+}
+
+// next: the successor states of st (cut edges and infeasible edges left out;
+// nothing follows a block that holds a stopping instruction).
+func (sc *searchCtx) next(st searchState, stop func(ssa.Instruction) bool, cut EdgeCut) []searchState {
+	if stop != nil {
+		for _, in := range st.b.Instrs {
+			if stop(in) {
+				return nil
+			}
+		}
+	}
+	var out []searchState
+	for i, to := range st.b.Succs {
+		if cut != nil && cut(st.b, i) {
+			continue
+		}
+		if !sc.feasible(st, i) {
+			continue
+		}
+		out = append(out, searchState{to, sc.transfer(st.mask, st.b, to)})
+	}
+	return out
+}
+
+// SearchReach computes the blocks reachable from the start of block from along
+// paths that are consistent with the search variables of the function.
+func SearchReach(from *ssa.BasicBlock) map[*ssa.BasicBlock]bool {
+	return searchReach(from, nil)
+}
+
+// SearchReachEdge is SearchReach started on the edge b -> b.Succs[i] (what the
+// edge assigns to the search variables counts).
+func SearchReachEdge(b *ssa.BasicBlock, i int) map[*ssa.BasicBlock]bool {
+	return searchReach(b.Succs[i], b)
+}
+
+func searchReach(from, via *ssa.BasicBlock) map[*ssa.BasicBlock]bool {
+	sc := newSearchCtx(from.Parent())
+	start := searchState{from, 0}
+	if via != nil {
+		start.mask = sc.transfer(0, via, from)
+	}
+	seen := map[searchState]bool{start: true}
+	out := map[*ssa.BasicBlock]bool{}
+	work := []searchState{start}
+	for len(work) > 0 {
+		st := work[len(work)-1]
+		work = work[:len(work)-1]
+		out[st.b] = true
+		for _, ns := range sc.next(st, nil, nil) {
+			if !seen[ns] {
+				seen[ns] = true
+				work = append(work, ns)
+			}
+		}
+	}
+	return out
+}
+
+// SearchCycleThrough reports whether the loop with header h can go round —
+// come back to h in the state it left it — along a path that executes no
+// stopping instruction, crosses no cut edge and is consistent with the search
+// variables (a flag set in the body that makes the loop condition false ends
+// the loop: no cycle).
+func SearchCycleThrough(h *ssa.BasicBlock, stop func(ssa.Instruction) bool, cut EdgeCut) bool {
+	sc := newSearchCtx(h.Parent())
+	// the states of h reachable from (h, nothing live)
+	start := searchState{h, 0}
+	seen := map[searchState]bool{start: true}
+	work := []searchState{start}
+	var hs []searchState
+	for len(work) > 0 {
+		st := work[len(work)-1]
+		work = work[:len(work)-1]
+		if st.b == h {
+			hs = append(hs, st)
+		}
+		for _, ns := range sc.next(st, stop, cut) {
+			if !seen[ns] {
+				seen[ns] = true
+				work = append(work, ns)
+			}
+		}
+	}
+	for _, h0 := range hs {
+		seen2 := map[searchState]bool{}
+		work = append(work[:0], sc.next(h0, stop, cut)...)
+		for len(work) > 0 {
+			st := work[len(work)-1]
+			work = work[:len(work)-1]
+			if st == h0 {
+				return true
+			}
+			if seen2[st] {
+				continue
+			}
+			seen2[st] = true
+			work = append(work, sc.next(st, stop, cut)...)
+		}
+	}
+	return false
+}
+
+// ReachingStores: for a load of a local cell, the stores into the cell that
+// can be the last one before the load (stores of the cell's own value, as
+// `return c, false` makes for a named result, are looked through).
+func ReachingStores(ld *ssa.UnOp) []*ssa.Store {
+	a, ok := ld.X.(*ssa.Alloc)
+	if !ok || ld.Op != token.MUL {
+		return nil
+	}
+	var stores []*ssa.Store
+	for _, r := range Referrers(a) {
+		if st, ok := r.(*ssa.Store); ok && st.Addr == ssa.Value(a) {
+			if u, isLoad := st.Val.(*ssa.UnOp); isLoad && u.Op == token.MUL && u.X == ssa.Value(a) {
+				continue // c = c
+			}
+			stores = append(stores, st)
+		}
+	}
+	isStore := func(x ssa.Instruction) bool {
+		for _, s := range stores {
+			if s == x {
+				return true
+			}
+		}
+		return false
+	}
+	var out []*ssa.Store
+	for _, st := range stores {
+		if ReachFrom(After(st), isStore, nil).Has(ld) {
+			out = append(out, st)
+		}
+	}
+	return out
+}
+
+// ResolveLoad: the value a load of a local cell yields when exactly one store
+// can be the last one before it (a variable assigned on several branches, read
+// where only one assignment reaches); v itself otherwise.
+func ResolveLoad(v ssa.Value) ssa.Value {
+	for i := 0; i < 4; i++ {
+		ld, ok := v.(*ssa.UnOp)
+		if !ok {
+			return v
+		}
+		sts := ReachingStores(ld)
+		if len(sts) != 1 {
+			return v
+		}
+		v = Canon(sts[0].Val)
+	}
+	return v
 }
